@@ -6,6 +6,11 @@
 //            clear on bad_alloc; what it never allows is stale data, a count above the limit or counts no state explains
 //   cycles : fill -> empty (clear / remove / rise / expiry / overwrite) -> refill histories that keep the live data below
 //            1/16 of the segment: there the model is exact, so memory that is not released shows up as lost entries
+//   long   : thousands of fill/empty cycles with FRESH key and trigger names every cycle on 512 KiB .. 2 MiB segments (limit
+//            1..8, emptied by rise of the own-key / a shared / an extra trigger, remove, overwrite with a past deadline,
+//            expiry + store pressure, eviction by limit, or clear).  Live data stays far below 1/16 of the segment, so the
+//            model is exact and a leak per removed entry ends as lost entries / wrong counts; in addition the largest value
+//            that fits into the empty cache is probed before and after the run (shm:capacity-shrinks-after-fill-empty-cycles)
 // Virtual clock: time() is interposed at link time (c07_model.h).
 #include "c07_model.h"
 #include <limits>
@@ -84,6 +89,141 @@ static Outcome run_evict(Case const &c, bool &nt, bool &inconclusive) {
     return ok();
 }
 
+
+// ------------------------------------------------------------------------------------------------ long fill/empty runs
+enum { M_RISE_OWN, M_RISE_SHARED, M_RISE_EXTRA, M_REMOVE, M_OVERWRITE, M_EXPIRY, M_EVICT, M_CLEAR, NMETHODS };
+static const char *method_names[] = {"rise_own", "rise_shared", "rise_extra", "remove", "overwrite_past", "expiry", "evict", "clear"};
+static const int CAPACITY_TOLERANCE = 1;      // buddy size classes; see props/c08.py (measured: the drop is 0 on the unchanged tree)
+
+static std::string fresh(const char *prefix, long n, bool longname) {
+    std::string r = prefix + std::to_string(n);
+    if (longname) r += "-fresh-name-padding-0123456789abcdefghijklmnopqrstuvwxyz";    // beyond the SSO buffer: allocates in the segment
+    return r;
+}
+// upper bound of the shared memory of one entry: map node (256) + lru/timeout nodes (2 x 64) + value and key blocks, and per
+// trigger two list nodes (2 x 64), the trigger record (128) and its name block
+static size_t entry_bytes_exact(BEntry const &e) {
+    size_t b = 384 + pow2ceil(e.vlen + 33) + pow2ceil(e.key.size() + 33);
+    for (auto &t : e.trigs) b += 256 + pow2ceil(t.size() + 33);
+    return b;
+}
+// Capacity of the EMPTY cache: the largest buddy size class c such that a value of 2^c - 64 bytes can be stored and fetched.
+static int capacity_class(cache_ptr const &cache, size_t seg) {
+    int top = 0; while ((size_t(1) << (top + 1)) <= seg) top++;
+    const std::string pk("\x01probe");
+    for (int cl = top; cl >= 8; cl--) {
+        std::string v((size_t(1) << cl) - 64, 'p'), out;
+        cache->store(pk, v, sset(), g_now + 1000);
+        bool hit = cache->fetch(pk, &out, 0, 0, 0) && out.size() == v.size();
+        cache->remove(pk);
+        if (hit) return cl;
+    }
+    return 0;
+}
+
+static Outcome run_long(Case const &c, bool &nt, bool &inconclusive) {
+    g_now = T0;
+    cache_ptr cache = get_cache(1, c.seg_kib, c.limit);
+    BranchModel M; M.limit = (unsigned)c.limit;
+    size_t seg = (size_t)c.seg_kib * 1024;
+    FC.add("evict.process.small_segment"); FC.add("evict.kind.long");
+    long counter = 0, run = 0, max_run = 0, cycles_total = 0, names = 0, removals = 0;
+    std::string where;
+    auto ctx = [&]() { return where + " after " + std::to_string(removals) + " removals of fresh names (" + std::to_string(max_run > run ? max_run : run) + " without clear), " + std::to_string(names) + " distinct names | " + c.str(8); };
+#define LONG_CHECK(o) do { if (M.overflow) { inconclusive = true; FC.add("evict.branch_overflow"); return ok(); } \
+                           Outcome o_ = (o); if (!o_.ok()) return bad(o_.sig, o_.msg + " | " + ctx()); } while (0)
+    auto check_stats = [&]() -> Outcome { unsigned keys = 0, trigs = 0; cache->stats(keys, trigs); return M.stats(keys, trigs, g_now); };
+
+    int cap0 = capacity_class(cache, seg);
+    { unsigned k0 = 0, t0 = 0; cache->stats(k0, t0); if (k0 || t0) return bad("shm:probe-left-entries", "the capacity probe left " + std::to_string(k0) + " keys in the cache | " + c.str(8)); }
+
+    for (size_t pi = 0; pi < c.ops.size(); pi++) {
+        Op const &op = c.ops[pi];
+        if (op.kind != PHASE) continue;
+        int method = ((op.flag % NMETHODS) + NMETHODS) % NMETHODS;
+        int n = op.key < 1 ? 1 : (op.key > 12 ? 12 : op.key);
+        int extra = op.trigs.size() > 0 ? op.trigs[0] : 0, shared = op.trigs.size() > 1 ? op.trigs[1] : 0;
+        extra = extra < 0 ? 0 : (extra > 2 ? 2 : extra);
+        if (method == M_RISE_SHARED) shared = 1;
+        if (method == M_RISE_EXTRA && extra == 0) extra = 1;
+        // entries left behind expired are only resolved (which of them went first is not specified) once all of them have been
+        // pushed out: with at least `limit` fresh entries per fill the state set converges in every cycle
+        if ((method == M_OVERWRITE || method == M_EXPIRY) && n < c.limit) n = c.limit;
+        bool longk = op.vseed & 1, longt = op.vseed & 2;
+        int vlen = op.vlen < 0 ? 0 : (op.vlen > 300 ? 300 : op.vlen);
+        FC.addn("longcycle.empty_by=", method_names[method], op.dl > 0 ? op.dl : 0);
+        for (long long cy = 0; cy < op.dl; cy++) {
+            cycles_total++;
+            where = "phase " + std::to_string(pi) + " (" + method_names[method] + ") cycle " + std::to_string(cy);
+            std::string sh = fresh("s", counter, longt); if (shared) names++;
+            std::vector<std::string> keys; std::vector<std::vector<std::string>> xs;
+            for (int i = 0; i < n; i++) {
+                std::string k = fresh("k", counter, longk); names++;
+                sset T; if (shared) T.insert(sh);
+                std::vector<std::string> x;
+                for (int j = 0; j < extra; j++) { x.push_back(fresh(j ? "y" : "x", counter, longt)); T.insert(x.back()); names++; }
+                counter++;
+                std::string v = value((int)counter, vlen);
+                auto e = std::make_shared<BEntry>(); e->key = k; e->vhash = vr::fnv(v); e->vlen = v.size(); e->trigs = T; e->trigs.insert(k);
+                e->deadline = (time_t)(g_now + (method == M_EXPIRY ? 2 : 1000));
+                if (!M.pressure) {
+                    size_t live = 0;
+                    for (auto &s : M.states) { size_t b = 0; for (auto &x2 : s.lru) b += entry_bytes_exact(*x2); live = std::max(live, b); }
+                    if (live + 2 * entry_bytes_exact(*e) > seg / 16) { M.pressure = true; FC.add("longcycle.pressure_possible"); }
+                }
+                M.store(e, g_now);
+                cache->store(k, v, T, e->deadline);
+                LONG_CHECK(check_stats());
+                keys.push_back(k); xs.push_back(x);
+            }
+            // after the fill: every key of this cycle is fetched (the model says which of them must hit), counts must match
+            for (auto &k : keys) { Fetched f = do_fetch(cache, k); FC.add(f.hit ? "fetch.hit" : "fetch.miss"); LONG_CHECK(M.fetch(k, f, g_now)); }
+            LONG_CHECK(check_stats());
+            switch (method) {
+            case M_RISE_OWN: for (auto &k : keys) { M.rise(k); cache->rise(k); } break;
+            case M_RISE_SHARED: M.rise(sh); cache->rise(sh); break;
+            case M_RISE_EXTRA: for (auto &x : xs) { M.rise(x[0]); cache->rise(x[0]); } break;
+            case M_REMOVE: for (auto &k : keys) { M.remove(k); cache->remove(k); } break;
+            case M_OVERWRITE:
+                for (auto &k : keys) {
+                    auto e = std::make_shared<BEntry>(); e->key = k; std::string v = "gone"; e->vhash = vr::fnv(v); e->vlen = v.size(); e->trigs.insert(k); e->deadline = (time_t)(g_now - 5);
+                    M.store(e, g_now); cache->store(k, v, sset(), e->deadline);
+                    LONG_CHECK(check_stats());
+                }
+                break;
+            case M_EXPIRY: g_now += 3; break;
+            case M_EVICT: break;
+            case M_CLEAR: M.clear(); cache->clear(); break;
+            }
+            LONG_CHECK(check_stats());
+            removals += n; run += n;
+            if (method == M_CLEAR) { run -= n; max_run = std::max(max_run, run); run = 0; }
+            if (M.overflow) { inconclusive = true; FC.add("evict.branch_overflow"); return ok(); }
+            if (M.states.size() > 1) FC.add("evict.step_with_several_states");
+        }
+    }
+    max_run = std::max(max_run, run);
+    // empty the cache without clear() (clear would also drop whatever was leaked) and probe the capacity again
+    where = "final emptying";
+    { std::set<std::string> left; for (auto &s : M.states) for (auto &e : s.lru) left.insert(e->key);
+      for (auto &k : left) { M.remove(k); cache->remove(k); } }
+    LONG_CHECK(check_stats());
+    FC.addn("longcycle.cycles", "", cycles_total); FC.addn("longcycle.distinct_names", "", names); FC.addn("longcycle.removals", "", removals);
+    if (M.pressure) FC.add("evict.case_under_memory_pressure");
+    if (M.evictions) FC.add("evict.case_with_forced_eviction");
+    if (M.nt_mixed) FC.add("evict.expired_first_while_live_present");
+    nt = max_run >= 1000;
+    if (nt) FC.add("longcycle.case_with_1000_removals_without_clear");
+    if (max_run >= 3000) FC.add("longcycle.case_with_3000_removals_without_clear");
+    int cap1 = capacity_class(cache, seg);
+    static const char *drops[] = {"0", "1", "2", "3+"};
+    int drop = cap0 - cap1; FC.add("longcycle.capacity_drop=", drop <= 0 ? drops[0] : drops[drop > 3 ? 3 : drop]);
+    if (drop > CAPACITY_TOLERANCE && !vr::envl("C08_NO_PROBE", 0))     // the knob exists to see what the model oracle alone catches
+        return bad("shm:capacity-shrinks-after-fill-empty-cycles", "before the run a value of 2^" + std::to_string(cap0) + "-64 bytes fitted into the empty cache, after emptying it again "
+                   "only 2^" + std::to_string(cap1) + "-64 bytes fit: memory of removed entries was not released | " + ctx());
+    return ok();
+}
+
 static void precreate(int seg_kib) {
     // create the cache objects while the segment is pristine so that their tables sit at its low end
     for (int l : {0, 1, 2, 3, 4, 5, 6, 7, 8, 9, 10, 64}) get_cache(1, seg_kib, l);
@@ -97,7 +237,7 @@ static Outcome run_case(Case const &c) {
     bool hermetic = c.backend == 1 && c.seg_kib <= 16384;
     Outcome o; bool nt = false, inconclusive = false;
     if (!hermetic) {
-        try { o = run_evict(c, nt, inconclusive); }
+        try { o = c.mode == 3 ? run_long(c, nt, inconclusive) : run_evict(c, nt, inconclusive); }
         catch (std::exception const &e) { o = bad("exception:evict", std::string("unexpected exception: ") + e.what() + " | " + c.str(60)); }
     } else {
         int fd[2];
@@ -109,7 +249,7 @@ static Outcome run_case(Case const &c) {
             close(fd[0]);
             unsetenv("VERIF_REPORT"); vr::crash_ctx().encode = nullptr;
             Outcome co;
-            try { precreate(c.seg_kib); co = run_evict(c, nt, inconclusive); }
+            try { precreate(c.seg_kib); co = c.mode == 3 ? run_long(c, nt, inconclusive) : run_evict(c, nt, inconclusive); }
             catch (std::exception const &e) { co = bad("exception:evict", std::string("unexpected exception: ") + e.what() + " | " + c.str(60)); }
             vr::CaseWriter w; w.s(co.sig).s(co.msg).i(nt).i(inconclusive);
             for (auto &kv : FC.c) w.s(kv.first.first).s(kv.first.second).i(kv.second);
@@ -134,7 +274,7 @@ static Outcome run_case(Case const &c) {
     FC.c.clear();
     if (inconclusive) VR.inconclusive++;
     if (o.ok() && nt) VR.nontrivial(c.hash());
-    if (o.ok() && VR.want_sample()) VR.sample((c.mode == 2 ? "cycles " : c.mode == 1 ? "shm " : "lru ") + c.str(12));
+    if (o.ok() && VR.want_sample()) VR.sample((c.mode == 3 ? "long " : c.mode == 2 ? "cycles " : c.mode == 1 ? "shm " : "lru ") + c.str(12));
     return o;
 }
 
@@ -250,6 +390,32 @@ static rc::Gen<Case> gen_cycles(GenCfg g, int max_cycles) {
     });
 }
 
+
+// long runs: 1..3 phases, each `cycles` rounds of (fill n fresh entries, empty them by one method)
+static rc::Gen<Case> gen_long(bool thorough) {
+    return rc::gen::exec([thorough]() {
+        Case c; c.backend = 1; c.mode = 3;
+        c.seg_kib = thorough ? *rc::gen::element(512, 640, 768, 1024, 1536, 2048, 3072, 4096) : *rc::gen::element(512, 512, 640, 768, 1024, 1536, 2048);
+        c.limit = *vr::range<int>(1, 9);
+        c.nkeys = c.limit;
+        int nph = *rc::gen::weightedElement<int>({{6, 1}, {3, 2}, {1, 3}});
+        int hi = thorough ? 20000 : 7000;
+        int R = *rc::gen::weightedOneOf<int>({{3, vr::range<int>(300, 1000)}, {7, vr::range<int>(3000, hi + 1)}});
+        for (int p = 0; p < nph; p++) {
+            Op o; o.kind = PHASE;
+            o.flag = *rc::gen::weightedElement<int>({{3, (int)M_RISE_OWN}, {3, (int)M_RISE_SHARED}, {3, (int)M_RISE_EXTRA}, {3, (int)M_REMOVE}, {3, (int)M_OVERWRITE}, {3, (int)M_EXPIRY}, {3, (int)M_EVICT}, {2, (int)M_CLEAR}});
+            o.key = *rc::gen::weightedOneOf<int>({{5, rc::gen::just(c.limit)}, {3, vr::range<int>(1, c.limit + 3)}});
+            o.dl = std::max(1, R / nph / o.key);
+            o.vlen = *rc::gen::element(0, 16, 16, 100, 300);
+            o.vseed = *vr::range<int>(0, 4);
+            o.trigs.push_back(*vr::range<int>(0, 3));
+            o.trigs.push_back(*vr::range<int>(0, 2));
+            c.ops.push_back(o);
+        }
+        return c;
+    });
+}
+
 int main(int argc, char **argv) {
     VR.max_samples = 2;      // the evidence keeps 12 samples in all: leave room for several units
     GenCfg g; g.backend = (int)vr::envl("C07_BACKEND", 0); g.seg_kib = g.backend ? (int)vr::envl("C07_SEG_KIB", 262144) : 0;
@@ -258,5 +424,6 @@ int main(int argc, char **argv) {
     GenCfg gs = g; if (!gs.backend || gs.seg_kib > 8192) { gs.backend = 1; gs.seg_kib = 1024; }
     props.push_back(vr::prop<Case>("shm", gen_shm(gs), run_case));
     props.push_back(vr::prop<Case>("cycles", gen_cycles(gs, vr::thorough() ? 120 : 48), run_case));
+    props.push_back(vr::prop<Case>("long", gen_long(vr::thorough()), run_case));
     return vr::rc_main(argc, argv, props);
 }
